@@ -5,7 +5,7 @@ a reference allocator (granted set + pin->owner map, vf/ref/c19_alloc.py). The i
 observed only through the behaviour of later requests. Families (each enumerated completely inside its bounds):
   S  structures: all tables of <=3 resources over 7 shapes x injective pin tuples from a pool of 4 pins
      (modulo pin renaming / resource-list order; quick: 3-resource tables over P1/G11 only), every request history
-     of length 3 over 4 actions per resource + a missing resource (thorough: also length 4 on the smaller tables)
+     of length 3 over 4 actions per resource + a missing resource (thorough: also length 4 on the 1- and 2-resource tables)
   D1 decorations: one resource x (shape, pin order, dir, inversion, attrs, clock, connector depth 0..3/mixed)
      + one probe resource per pin; all histories of length 2 (3 thorough)
   D2 override algebra: shape x declared directions, full dir x xdr override alphabet; all histories of length 2
@@ -481,16 +481,16 @@ def families(rep):
     fam = {}
     s1 = G.structures(1, G.SHAPES)
     s2 = G.structures(2, G.SHAPES)
+    s3small = G.structures(3, ["P1", "G11"])
     if q:
-        s3 = G.structures(3, ["P1", "G11"])
-    else:
-        s3 = G.structures(3, ["P1", "P2", "D1", "G11", "G12"]) + \
-             [s for s in G.structures(3, ["P1", "G1D", "N"]) if any(sh in ("G1D", "N") for sh, _ in s)]
+        s3 = s3small
+    else:       # all 3-resource tables over P1/P2/D1/G11 + those with one 3-pin shape (G12, G1D, nested) and two single pins
+        s3 = G.structures(3, ["P1", "P2", "D1", "G11"]) + \
+             [s for big in ("G12", "G1D", "N") for s in G.structures(3, ["P1", big]) if sum(sh == big for sh, _ in s) == 1]
     structs = s1 + s2 + s3
     fam["S"] = ([G.s_table(s, i) for i, s in enumerate(structs)], 3)
-    s3small = G.structures(3, ["P1", "G11"])
     if not q:
-        fam["S4"] = ([G.s_table(s, i) for i, s in enumerate(s1 + s2 + s3small)], 4)
+        fam["S4"] = ([G.s_table(s, i) for i, s in enumerate(s1 + s2)], 4)
     d1 = G.d1_tables()
     fam["D1"] = (d1, rep.pick(2, 3))
     fam["D2"] = (G.d2_tables(), 2)
